@@ -26,7 +26,7 @@ NEUTRAL_ARRAY = ['({A})+0*([{R},1]*[1,0])', '({A})+[0*({R}),0]*[1,1]']
 
 def gates(tier):
     return {'cheats_twin_credited': 2500, 'cheats_refused': 2500, 'honest_controls': 400,
-            'restriction:blacklist': 150, 'restriction:whitelist': 150, 'restriction:whitelist_none': 100,
+            'restriction:blacklist': 100, 'restriction:blacklist:user_override': 15, 'restriction:whitelist': 150, 'restriction:whitelist_none': 100,
             'restriction:required': 100, 'restriction:forbidden': 150, 'restriction:instructor_var': 150,
             'restriction:numbered': 100, 'restriction:suffix': 80, 'restriction:name': 150,
             'restriction:sibling': 60, 'restriction:sum_blacklist': 80, 'partial_credit_cheats': 200}
@@ -103,8 +103,15 @@ def run_functions(ctx):
         target = rng.choice([ans, '2*(%s)' % ans])
         kind = rng.choice(['blacklist', 'whitelist', 'whitelist_none'])
         common = dict(answers=answers, variables=['x'], user_functions={'uf': lambda t: t * 1.0}, user_constants={'kc': 2.5})
+        override = False
         if kind == 'blacklist':
             bad = rng.choice(['sin', 'tan', 'sqrt', 'abs', 'arctan2'])
+            override = bad in ('tan', 'sqrt', 'abs') and rng.random() < 0.4
+            if override:
+                # the author replaced the default by a function of the same name AND blacklisted it: still not permitted
+                import numpy as _np
+                repl = {'tan': _np.tan, 'sqrt': _np.lib.scimath.sqrt, 'abs': _np.abs}[bad]
+                common = dict(common, user_functions=dict(common['user_functions'], **{bad: repl}), suppress_warnings=True)
             restricted = build(cls_name, blacklist=[bad] + rng.sample(['csc', 'floor'], rng.randint(0, 2)), **common)
         elif kind == 'whitelist':
             allowed = rng.sample(['cos', 'exp', 'sin', 'ln'], rng.randint(1, 3))
@@ -122,8 +129,9 @@ def run_functions(ctx):
         # the author's own answer may use the function: only cheat with functions the *target* does not need
         # (the target itself may contain sin; when sin is the restricted function the bare target is a cheat too)
         formula = tpl.format(A=target, R=R)
-        wit = {'grader': cls_name, 'restriction': kind, 'restricted_function': bad, 'answers': [ans, '2*(%s)' % ans]}
-        judge_cheat(ctx, kind, twin, restricted, formula, ('InvalidInput',), wit)
+        wit = {'grader': cls_name, 'restriction': kind, 'restricted_function': bad, 'answers': [ans, '2*(%s)' % ans],
+               'blacklisted_name_overridden_by_user_function': override}
+        judge_cheat(ctx, kind + (':user_override' if override else ''), twin, restricted, formula, ('InvalidInput',), wit)
         # user functions and constants stay usable under every function restriction
         if i % 5 == 0:
             # an honest formula using only permitted things: numeric value of the answer via identities
@@ -300,6 +308,52 @@ def run_siblings(ctx):
             ctx.count('cheats_refused')
 
 
+def run_siblings3(ctx):
+    """A sibling variable introduced for one box must not become usable in another box (shared subgrader)."""
+    from mitxgraders import FormulaGrader, ListGrader
+    rng = ctx.rng
+    for i in range(ctx.n(320, 4000)):
+        sub = FormulaGrader(variables=['x'])
+        layout = rng.choice([['x+1', 'sibling_1^2', '2*x'], ['2*x', 'x+1', 'sibling_2^2', '3*x'], ['sibling_3^2', '2*x', 'x+1']])
+        g = ListGrader(answers=list(layout), subgraders=sub, ordered=True)
+        honest = []
+        for a in layout:
+            honest.append({'x+1': 'x+1', '2*x': '2*x', '3*x': '3*x', 'sibling_1^2': '(x+1)^2', 'sibling_2^2': '(x+1)^2', 'sibling_3^2': '(x+1)^2'}[a])
+        # several submissions in a row on the same grader: the leak, if any, persists in the shared subgrader
+        for rep in range(3):
+            o = lib.call(ctx, g, None, list(honest))
+            ctx.ev()
+            ctx.count('honest_controls')
+            if not o.returned or not all(e['ok'] is True for e in o.value['input_list']):
+                ctx.violation('C09:sibling:honest_answer_refused', repr(o.brief()), {'answers': layout, 'inputs': honest})
+                break
+            plain = [k for k, a in enumerate(layout) if 'sibling' not in a]
+            box = rng.choice(plain)
+            # (a box cannot sensibly refer to itself: that is a circular definition, reported as a ConfigError)
+            sib = rng.choice([v for k, v in enumerate(['sibling_1', 'sibling_2', 'sibling_3', 'sibling_4'][:len(layout)]) if k != box])
+            cheat = list(honest)
+            cheat[box] = rng.choice(['(%s)+0*%s', '(%s)+%s-%s', '(%s)*(1+%s)^0']).replace('%s', '{a}', 1).replace('%s', '{s}').format(a=honest[box], s=sib)
+            out = lib.call(ctx, g, None, cheat)
+            ctx.ev()
+            ctx.count('restriction:sibling')
+            ctx.count('cheats_twin_credited')
+            wit = {'answers': layout, 'inputs': cheat, 'cheating_box': box, 'outcome': out.brief()}
+            ctx.nontrivial(['sibling3', layout, cheat])
+            if out.returned:
+                ctx.violation('C09:sibling:' + ('bypass_credited' if out.value['input_list'][box]['grade_decimal'] > 0 else 'graded_wrong_instead_of_rejected'),
+                              'box %d used %s and was graded: %r' % (box, sib, out.value['input_list'][box]), wit)
+                break
+            else:
+                # a box that other answers refer to is evaluated as the *definition* of that sibling variable first:
+                # an undefined name inside it is then reported as a configuration error of the dependent sampler
+                referenced = any(('sibling_%d' % (box + 1)) in a for a in layout)
+                allowed = ('UndefinedVariable', 'ConfigError') if referenced else ('UndefinedVariable',)
+                if type(out.exc).__name__ not in allowed:
+                    ctx.violation('C09:sibling:wrong_error_class', repr(out.exc), wit)
+                    break
+            ctx.count('cheats_refused')
+
+
 def run_sum(ctx):
     from mitxgraders import SumGrader
     rng = ctx.rng
@@ -348,6 +402,7 @@ def run(ctx):
     run_forbidden(ctx)
     run_names(ctx)
     run_siblings(ctx)
+    run_siblings3(ctx)
     run_sum(ctx)
     if ctx.shard == 0:
         ctx.sample({'restriction': 'blacklist=[sin]', 'answer': 'sin(x)^2', 'cheat': '(sin(x)^2)+0*(sin(1))',
